@@ -83,7 +83,7 @@ def gen_cases(rng, tier):
             "max_events": rng.choice([60, 120]) if tier == "quick" else rng.choice([120, 300]),
             "style": "distinct",
             "p_fail": rng.choice([0, 0, 0.03]),
-            "max_t": rng.choice([9, 27]),
+            "max_t": rng.choice([1, 2, 3]) if name.startswith("fifo-") else rng.choice([9, 27]),
             "extra": {"brackets": rng.choice([1, 1, 2, 3]), "reduction_factor": rng.choice([2, 3])},
         }
         if name == "moasha":
